@@ -9,6 +9,12 @@ exhaustively (every conditional jump both ways, calls up to depth 3) and checks 
 every reachable state, plus - once per image - that the loaded code is the documented rearrangement
 of the parsed code (LoadedCodeIsRearrangement) and that every jump leads to the same instruction of
 its segment before and after loading (RelocationPreservesTargets).
+
+Second part (spec/TraceVM.tla): generated scripts are executed by the real Machine with its dispatch
+table wrapped (no source hook): the pc and the shape of the call stack before every dispatched
+instruction are recorded, and TLC checks that every consecutive pair is a step of Image.tla's rules
+on the image the Machine itself loaded, that no visited state has a fault, and that the run ends at
+the end of the code.  This binds the abstract machine to the VM.
 """
 import glob
 import os
@@ -30,8 +36,12 @@ def export_image(text):
     pre = parser.get_program()
     loader = Loader()
     loader.load(pre)
-    post = loader.get_code()
-    routines = loader.get_routines()
+    return export_loaded(pre, loader.get_code(), loader.get_routines()), ''
+
+
+def export_loaded(pre, post, routines):
+    from bardolph.controller.routine import RuntimeRoutine
+    from bardolph.vm.vm_codes import OpCode, Operand
     def export(insts):
         out = []
         for inst in insts:
@@ -71,7 +81,65 @@ def export_image(text):
     entries = {name: r.get_address() for name, r in routines.items() if not isinstance(r, RuntimeRoutine)}
     builtins = sorted(name for name, r in routines.items() if isinstance(r, RuntimeRoutine))
     return {'code': code, 'seg': seg, 'entries': entries or {'_none_': -1}, 'builtins': builtins or ['_none_'],
-            'prog': prog, 'preseg': preseg, 'map': mapping}, ''
+            'prog': prog, 'preseg': preseg, 'map': mapping}
+
+
+class VmTrace:
+    """Records (pc, call-stack shape) before every instruction the Machine dispatches (its dispatch table is
+    wrapped - no source hook), and stops the job when `cap` instructions have been seen."""
+
+    def __init__(self, job, cap):
+        self.job, self.cap, self.rows, self.cut = job, cap, [], False
+        self.machine = getattr(job, '_machine', None)
+        table = getattr(self.machine, '_fn_table', None)
+        self.ok = isinstance(table, dict) and hasattr(self.machine, '_reg') and hasattr(self.machine, '_call_stack')
+        if self.ok:
+            for op, fn in list(table.items()):
+                table[op] = self.wrap(fn)
+
+    def shape(self):
+        from bardolph.vm.call_stack import LoopFrame
+        out, frame = [], self.machine._call_stack.get_top()
+        while frame is not None and frame.parent is not None:
+            out.append(1 if isinstance(frame, LoopFrame) else 0)
+            frame = frame.parent
+        return [9] + out[::-1]
+
+    def snap(self):
+        pc = self.machine._reg.pc
+        self.rows.append({'pc': pc if isinstance(pc, int) else -1, 'sh': self.shape()})
+
+    def wrap(self, fn):
+        def wrapped(*args, **kwargs):
+            self.snap()
+            if len(self.rows) >= self.cap and not self.cut:
+                self.cut = True
+                self.job.request_stop()
+            return fn(*args, **kwargs)
+        return wrapped
+
+
+def vm_record(rec, cap):
+    """Runs rec['text'] on its population with the tracer installed; returns the TraceVM record or None."""
+    from bardolph.controller.script_job import ScriptJob
+    world = runner.World(rec['pop'])
+    try:
+        job = ScriptJob()
+        if job.load_string(rec['text']) is None:
+            return None
+        tracer = VmTrace(job, cap)
+        if not tracer.ok:
+            return None
+        res = runner.run_script(world, rec['text'], job=job, limit=10.0)
+        tracer.snap()
+        machine = tracer.machine
+        image = export_loaded(job.program, machine._program, machine._routines)
+        image['trace'] = tracer.rows
+        image['cut'] = bool(tracer.cut or res.timed_out)
+        image['fault'] = res.machine_fault or ''
+        return image
+    finally:
+        world.close()
 
 
 def repo_scripts():
@@ -136,9 +204,51 @@ def run(report, replay=None):
                 nested = bool(re.search(r'\b(if|repeat)\b[^\n]*\n(?:.*\n)*?\s+define ', text))
                 report.violation('image:%s%s' % (item['why'], ':definition-inside-block' if nested else ''),
                                  '%s violated by the image of %s' % (item['why'], origin), {'origin': origin, 'text': text})
-    report.coverage['evaluations'] = len(batch)
-    report.coverage['distinct_nontrivial'] = len({m[1] for m in meta.values()})
-    report.coverage['rule'] = 'one record per compiled image; TLC explores all paths of each (conditional jumps both ways, calls to depth 3)'
+    # second part: executions of the real Machine are paths of the same abstract machine
+    nvm = 2500 if tier == 'thorough' else 240
+    cap = 6000 if tier == 'thorough' else 2500
+    vbatch, vmeta, untraced = [], {}, 0
+    for i in range(nvm):
+        profile = ['general', 'routines', 'loops', 'nested', 'matrix', 'print'][i % 6]
+        seed = lang_props.hash_seed(report.seed, 'c05vm' + profile, i)
+        rec = gen_lang.make_record(0, seed, profile, 30)
+        image = vm_record(rec, cap)
+        if image is None:
+            untraced += 1
+            continue
+        image['id'] = len(vbatch)
+        vbatch.append(image)
+        vmeta[image['id']] = ('generated:%s:%d' % (profile, seed), rec)
+    if untraced > nvm // 10:
+        raise tlc.MachineryError('TraceVM: %d of %d runs could not be traced (Machine._fn_table / _reg / _call_stack gone?)' % (untraced, nvm))
+    vshards = tlc.split(vbatch, 16)
+    vresults = tlc.run_sharded('TraceVM', vshards, timeout=1500, heap='3g')
+    report.add_tlc(vresults)
+    steps = 0
+    for shard, res in zip(vshards, vresults):
+        if res.exit != 0:
+            raise tlc.MachineryError('TraceVM: %s\n%s' % (res.violation, res.stdout[-1500:]))
+        got = {item['id']: item for item in res.printed}
+        for rec in shard:
+            item = got.get(rec['id'])
+            if item is None:
+                raise tlc.MachineryError('TraceVM: no verdict for %s\n%s' % (rec['id'], res.stdout[-800:]))
+            origin, src = vmeta[rec['id']]
+            steps += len(rec['trace'])
+            if item['ok']:
+                report.coverage['traces_validated_against_impl'] += 1
+            else:
+                at = item['at']
+                report.violation('vm:%s' % item['why'].split(':')[0],
+                                 '%s at step %d (pc %s) of the run of %s%s' % (item['why'], at, item['pc'], origin,
+                                                                             ('; machine: ' + rec['fault']) if rec['fault'] else ''),
+                                 {'origin': origin, 'text': src['text'], 'pop': src['pop'], 'around': rec['trace'][max(0, at - 3):at + 2],
+                                  'instruction': rec['code'][item['pc']] if 0 <= item['pc'] < len(rec['code']) else None})
+    report.notes.update(vm_runs=len(vbatch), vm_steps=steps, vm_runs_cut=sum(1 for r in vbatch if r['cut']))
+    report.coverage['evaluations'] = len(batch) + len(vbatch)
+    report.coverage['distinct_nontrivial'] = len({m[1] for m in meta.values()}) + len({m[1]['text'] for m in vmeta.values()})
+    report.coverage['rule'] = ('one record per compiled image, TLC explores all paths of each (conditional jumps both ways, calls to depth 3); '
+                               'plus one record per traced execution of the real Machine, validated step by step against the same rules')
     report.coverage['exhaustive'] = True
     report.notes.update(images=len(batch), repo_scripts_rejected_by_compiler=rejected)
     report.sample({'origin': meta[0][0], 'instructions': len(batch[0]['code']), 'first': batch[0]['code'][:8]})
